@@ -155,7 +155,8 @@ class Ledger:
             if h2 is None:
                 break
             host = h2
-        return '%s|%s|%s|%s' % (host.path.replace('bc_envelope::', ''), s['cls'], s['what'], head)
+        what = 'unwrap' if (s['cls'] == 'unwrap' and s['what'] == 'expect') else s['what']     # unwrap() / expect(msg): one operation, one key
+        return '%s|%s|%s|%s' % (host.path.replace('bc_envelope::', ''), s['cls'], what, head)
 
     # ---------------------------------------------------------------- individual rules: return (rule, argument) or None
     def d_len(self, s):
@@ -309,8 +310,8 @@ class Ledger:
                 return from_filter(elem_source(t[1]), depth + 1)
             if t[0] == 'call' and call_name(t) in ('assertions_with_predicate',):
                 return True
-            if t[0] == 'call' and call_name(t) in ('assertion_with_predicate',):
-                return True      # returns V[0] of the filter (C15.5)
+            if t[0] == 'call' and call_name(t) in ('assertion_with_predicate', 'optional_assertion_with_predicate'):
+                return True      # returns V[0] of the filter (as Ok(..) / Ok(Some(..)): C15.5)
             if t[0] == 'call' and call_name(t) == 'index':
                 return from_filter(t[2][0], depth + 1)
             if t[0] == 'index':
@@ -704,14 +705,28 @@ class Ledger:
 
     def t_reason(self, s):
         role = fn_role(s['body'])
-        k = (role, s['cls'], s['what'])
+        what = 'unwrap' if (s['cls'] == 'unwrap' and s['what'] == 'expect') else s['what']      # unwrap() and expect(msg) are the same operation
+        k = (role, s['cls'], what)
         if k in T_REASON:
             if role == 'add_to_envelope' and not self.attachments_who():
+                return None
+            if role == 'extract_type' and not self.typeid_guard(s):
                 return None
             if role == 'nicen' and not self.nicen_guard(s):
                 return None
             return ('T-REASON', T_REASON[k])
         return None
+
+    def typeid_guard(self, s):
+        """the downcast site is unreachable unless the two TypeIds compared equal (either spelling of the test, either branch order)"""
+        b, bi = s['body'], s['block']
+        tb = self.tb(b)
+        cmps = find_terms(b, tb, lambda x: x[0] == 'call' and call_name(x) in ('eq', 'ne') and len(x[2]) == 2
+                          and all(contains(a, lambda y: isinstance(y, tuple) and y and y[0] == 'call' and call_name(y) == 'of') for a in x[2]))
+        if len(cmps) != 1:
+            return False
+        differ = call_name(cmps[0]) == 'eq'      # value of the atom when the types differ: eq -> False, ne -> True
+        return bi not in reach_under(b, tb, {cmps[0]: (not differ)})
 
     def nicen_guard(self, s):
         b, bi = s['body'], s['block']
